@@ -249,29 +249,51 @@ pub fn check_c01(input: &str, stats: &mut Stats, rng: &mut Rng) {
     {
         let r = catch(|| {
             Yaml::load_from_str(input).ok().map(|docs| {
-                let mut stack: Vec<&Yaml> = docs.iter().collect();
-                let mut nodes = 0u64;
-                while let Some(y) = stack.pop() {
-                    nodes += 1;
+                // (node, parent index, is a mapping key)
+                let mut order: Vec<(&Yaml, usize, bool)> = vec![];
+                let mut stack: Vec<(&Yaml, usize, bool)> = docs.iter().map(|d| (d, usize::MAX, false)).collect();
+                while let Some((y, parent, is_key)) = stack.pop() {
+                    let me = order.len();
+                    order.push((y, parent, is_key));
                     match y {
-                        Yaml::Sequence(v) => stack.extend(v.iter()),
+                        Yaml::Sequence(v) => stack.extend(v.iter().map(|c| (c, me, false))),
                         Yaml::Mapping(m) => {
                             for (k, v) in m {
-                                stack.push(k);
-                                stack.push(v);
+                                stack.push((k, me, true));
+                                stack.push((v, me, false));
                             }
                         }
                         _ => {}
                     }
                 }
-                nodes
+                // subtree sizes, children before parents (a child always comes later in `order`)
+                let mut size = vec![1u64; order.len()];
+                for i in (0..order.len()).rev() {
+                    let p = order[i].1;
+                    if p != usize::MAX {
+                        size[p] += size[i];
+                    }
+                }
+                // inserting an entry hashes its key, i.e. walks the whole key subtree: a lower bound
+                // of the loader's hashing work that can be read off the result
+                let key_work: u64 = (0..order.len()).filter(|i| order[*i].2).map(|i| size[i]).sum();
+                (order.len() as u64, key_work)
             })
         });
         match r {
             Err(p) => c01_panic(stats, input, "Yaml::load_from_str", &p),
             Ok(None) => {}
-            Ok(Some(nodes)) => {
+            Ok(Some((nodes, key_work))) => {
                 stats.max("max_loaded_nodes_per_char_x100", nodes * 100 / (n as u64 + 1));
+                stats.max("max_key_hashing_work_per_char_x100", key_work * 100 / (n as u64 + 1));
+                if key_work > 8 * (n as u64 + 1) + 16 && nodes <= 8 * (n as u64 + 1) + 16 {
+                    viol(
+                        stats,
+                        "C01/work-bound/loader-key-hashing/nested-collection-keys".into(),
+                        format!("Yaml::load_from_str hashed at least {key_work} nodes while inserting mapping keys (sum of the sizes of all key subtrees) for {n} characters of input (bound 8*(n+1)+16)"),
+                        case_json(input, vec![("config", J::s("Yaml::load_from_str"))]),
+                    );
+                }
                 if nodes > 8 * (n as u64 + 1) + 16 {
                     let aliases = first.as_ref().is_some_and(|p| p.events.iter().any(|e| matches!(e.0, SEv::Alias(_))));
                     viol(
